@@ -15,7 +15,7 @@ for key, r in sorted(V.items()):
     if not pm:
         print("skip (no property line)", key); continue
     prop = pm.group(1)
-    sid = "%s-r5%s%s" % (prop, area, m)
+    sid = "%s-%s%s%s" % (prop, os.environ.get("SEED_ROUND", "r5"), area, m)
     d = os.path.join(here, "seeded", sid)
     os.makedirs(d, exist_ok=True)
     shutil.copy(os.path.join(src, m + ".diff"), os.path.join(d, "patch.diff"))
